@@ -5,6 +5,7 @@ import (
 	"go/ast"
 	"go/token"
 	"go/types"
+	"regexp"
 	"strings"
 )
 
@@ -172,6 +173,7 @@ func runR_C03(c *Ctx) {
 func compareCoreRules(c *Ctx, leafSemantics bool) {
 	sweepHealth(c, "compare")
 	rR1(c, "compare")
+	namedFieldConsultsMethod(c, "compare", methodPredicateName(c.R.repo, "compare.compareMethodInputParam", "Compare"), "Compare")
 	bodies := map[string]map[int]string{}
 	bodyRun := map[string]*Resid{}
 	n, rows, und := 0, 0, 0
@@ -307,4 +309,40 @@ func (s *sided) operatorBeforeMethodIssues(methodPred string) []sideIssue {
 		return true
 	})
 	return out
+}
+
+// namedFieldConsultsMethod — on every accepted path, a struct field whose type this path established to be a named type has had
+// the plugin's method predicate asked about that very type (not about its underlying type, which has no methods): otherwise the
+// field type's own method is bypassed on this path while the sibling plugin (Equal ~ Compare) still calls its own.
+func namedFieldConsultsMethod(c *Ctx, plugin, methodPred, method string) {
+	fieldType := regexp.MustCompile(`\]\.Type\(\)$`)
+	for _, r := range c.R.Runs(plugin) {
+		if r.Outcome != "accepted" {
+			continue
+		}
+		for _, d := range r.Decisions {
+			if !strings.HasPrefix(d.Sym, "A:") || !strings.HasSuffix(d.Sym, ":*types.Named") || d.Choice != 0 {
+				continue
+			}
+			org := strings.TrimSuffix(strings.TrimPrefix(d.Sym, "A:"), ":*types.Named")
+			if !fieldType.MatchString(org) {
+				continue
+			}
+			asked := false
+			for _, e := range r.Decisions {
+				if strings.Contains(e.Sym, "pred:"+methodPred+"("+org+",") {
+					asked = true
+					break
+				}
+			}
+			if asked {
+				c.Rep.pass("R-method")
+				continue
+			}
+			c.Rep.fail(Finding{Rule: "R-method", Key: "R-method|" + plugin + "|named-field-without-method-lookup", Plugin: plugin, Script: r.Script,
+				Msg:    fmt.Sprintf("%s: on an accepted path the type of a struct field (%s) is a named type, but %s was never asked about it: a %s method of that type is bypassed for this field (for example when the field is then handled as its underlying type), although it decides wherever else the type occurs", plugin, shortSym(org), methodPred, method),
+				Detail: "abstract path: " + r.describe()})
+			break
+		}
+	}
 }
